@@ -121,7 +121,7 @@ def main(seed, tier, args):
     import json
     import os
 
-    n = args.cases or (1600 if tier == "quick" else 60000)
+    n = args.cases or (4000 if tier == "quick" else 100000)
     budget = args.budget or (100 if tier == "quick" else 900)
     conf, problems = conformance(seed, 10 if tier == "quick" else 150)
     rc, ev = engine.run_batch(__import__("props.c06", fromlist=["x"]), seed, tier, n, budget, extra_evidence=conf)
